@@ -50,7 +50,7 @@ pub struct Acc {
     pub samples: Vec<(u64, Value)>, // (priority key, sample)
 }
 
-pub const MAX_VIOLATIONS_KEPT: usize = 200;
+pub const MAX_VIOLATIONS_KEPT: usize = 400;
 
 impl Acc {
     #[inline]
@@ -74,6 +74,11 @@ impl Acc {
         }
     }
     pub fn violation(&mut self, canon: String, detail: String) {
+        *self.counts.entry("violation_occurrences").or_insert(0) += 1;
+        // one entry per distinct canonical case
+        if self.violations.iter().any(|v| v.canon == canon) {
+            return;
+        }
         self.violation_count += 1;
         if self.violations.len() < MAX_VIOLATIONS_KEPT {
             self.violations.push(Violation { canon, detail });
@@ -99,12 +104,18 @@ impl Acc {
             }
         }
         self.outcomes.extend(o.outcomes);
-        self.violation_count += o.violation_count;
+        let kept = o.violations.len() as u64;
         for v in o.violations {
+            if self.violations.iter().any(|x| x.canon == v.canon) {
+                continue;
+            }
+            self.violation_count += 1;
             if self.violations.len() < MAX_VIOLATIONS_KEPT {
                 self.violations.push(v);
             }
         }
+        // distinct canons beyond the kept list cannot be de-duplicated; count them all
+        self.violation_count += o.violation_count - kept;
         self.samples.extend(o.samples);
         self.samples.sort_by_key(|s| s.0);
         self.samples.truncate(6);
